@@ -628,7 +628,8 @@ class Node:
             for n in topnodes:
                 if n._data_id in existing_ids:
                     raise UniqueConstraintError("Node.data already exists in parent")
-            if isinstance(before, (int, Node)) and before is not False:
+            if isinstance(before, int) and before is not False:
+                # Repeatedly inserting at the same index reverts the order
                 topnodes = topnodes[::-1]
             for n in topnodes:
                 self.add_child(n, before=before, deep=deep)
